@@ -111,16 +111,83 @@ def run(ctx):
     w5_repr(ctx, "sqpack::data::FileType", {"Empty": 1, "Standard": 2, "Model": 3, "Texture": 4})
     from .. import wire as W
 
-    bh = wm.items.by_path.get("sqpack::data::BlockHeader")
-    cm = wm.items.by_path.get("sqpack::data::CompressionMode")
-    if bh and cm:
-        xcalc = [d.text.replace(" ", "") for f in bh["fields"] if f["name"] == "x" for d in W.directives(f["attrs"]) if d.name == "calc"]
-        ycalc = [d.text.replace(" ", "") for f in bh["fields"] if f["name"] == "y" for d in W.directives(f["attrs"]) if d.name == "calc"]
-        cmap = [d.text.replace(" ", "") for d in W.directives(cm["attrs"]) if d.name == "map"]
-        ctx.ob("MARKER", "raw-marker", bool(xcalc) and "CompressionMode::Uncompressed{..}=>{32000}" in xcalc[0] and bool(cmap) and cmap[0].startswith("|_:i32|ifx<32000{CompressionMode::Compressed{compressed_length:x,decompressed_length:y}}else{CompressionMode::Uncompressed{file_size:y}}"), f"writer x = {xcalc}; reader map = {cmap}; raw blocks carry 32000 in the first word and their size in the second", bh["file"], bh["line"], sample=True)
-        ctx.ob("MARKER", "second-word", bool(ycalc) and "Compressed{decompressed_length,..}=>{*decompressed_length}" in ycalc[0] and "Uncompressed{file_size}=>{*file_size}" in ycalc[0], f"writer y = {ycalc}", bh["file"], bh["line"], trivial=True)
+    # ---- MARKER (on the MIR, so that naming the literal or re-spelling the comparison changes nothing)
+    from .. import panic as P
+
+    rdr = [b for n_, b in prog.bodies.items() if n_.startswith("<sqpack::data::CompressionMode as binrw::BinRead>::read_options") and any(st["k"] == "assign" and st["rv"]["k"] == "agg" and st["rv"].get("variant") == "Compressed" for _b, _s, st in b.stmts())]
+    wb = prog.body("<sqpack::data::BlockHeader as binrw::BinWrite>::write_options")
+    if len(rdr) != 1 or not wb:
+        ctx.fail_closed("MARKER", "CompressionMode map closure / BlockHeader writer not found")
     else:
-        ctx.fail_closed("MARKER", "BlockHeader / CompressionMode not found")
+        rb_ = rdr[0]
+        rix = P.BodyIndex(rb_)
+        thr = {}
+
+        def threshold_pred(which):
+            def pred(dop, val, par):
+                r = rix.resolve(dop)
+                if not (r[0] == "rv" and r[1]["k"] == "bin" and r[1]["op"] in ("Lt", "Le", "Gt", "Ge")):
+                    return False
+                a, b = rix.resolve(r[1]["a"]), rix.resolve(r[1]["b"])
+                op_ = r[1]["op"]
+                if a[0] == "const" and b[0] != "const":  # c OP x  ->  x OP' c
+                    a, b = b, a
+                    op_ = {"Lt": "Gt", "Le": "Ge", "Gt": "Lt", "Ge": "Le"}[op_]
+                if b[0] != "const":
+                    return False
+                c = b[1]
+                is_true = val == 1 or (isinstance(val, tuple) and val[0] == "not" and val[1] == (0,))
+                if not is_true and val != 0:
+                    return False
+                # the set of x on this edge is  x < t  (below=True)  or  x >= t
+                t, below = {"Lt": (c, True), "Le": (c + 1, True), "Ge": (c, False), "Gt": (c + 1, False)}[op_]
+                if not is_true:
+                    below = not below
+                thr[which] = (t, below)
+                return True
+
+            return pred
+
+        for bi, si, st in rb_.stmts():
+            if st["k"] == "assign" and st["rv"]["k"] == "agg" and st["rv"].get("variant") in ("Compressed", "Uncompressed"):
+                P.guard_dominates(rix, bi, threshold_pred(st["rv"]["variant"]))
+        ok_r = thr.get("Compressed") == (32000, True) and thr.get("Uncompressed") == (32000, False)
+        # wiring of the two words
+        wires = {}
+        for bi, si, st in rb_.stmts():
+            if st["k"] == "assign" and st["rv"]["k"] == "agg" and st["rv"].get("variant") in ("Compressed", "Uncompressed"):
+                for nm, o in zip(st["rv"]["fields"], st["rv"]["ops"]):
+                    wires[nm] = frozenset(pth[-1] for pth in derive(index_of(rb_), o).paths if pth)
+        cmp_src = set()
+        t0 = rb_.term(0) if rb_.blocks else None
+        for bi, si, st in rb_.stmts():
+            if st["k"] == "assign" and st["rv"]["k"] == "bin" and st["rv"]["op"] in ("Lt", "Le", "Gt", "Ge"):
+                for o in (st["rv"]["a"], st["rv"]["b"]):
+                    cmp_src |= {pth[-1] for pth in derive(index_of(rb_), o).paths if pth}
+        ok_w = len(wires) == 3 and wires.get("compressed_length") == frozenset(cmp_src) and wires.get("decompressed_length") == wires.get("file_size") and wires.get("decompressed_length") != wires.get("compressed_length") and all(len(v) == 1 for v in wires.values())
+        ctx.ob("MARKER", "raw-marker", ok_r, f"reader: Compressed on the edge x {'<' if thr.get('Compressed', (0, True))[1] else '>='} {thr.get('Compressed', ('?',))[0]}, Uncompressed on x {'<' if thr.get('Uncompressed', (0, False))[1] else '>='} {thr.get('Uncompressed', ('?',))[0]}; raw blocks are those whose first word is >= 32000", rb_.file, rb_.line, sample=True)
+        ctx.ob("MARKER", "reader-words", ok_w, f"reader: compressed_length <- the compared word {sorted(cmp_src)}, decompressed_length and file_size <- the other word ({ {k: sorted(v) for k, v in wires.items()} })", rb_.file, rb_.line)
+        # writer: the first word is compressed_length or the constant marker; the second is decompressed_length / file_size
+        wix = P.BodyIndex(wb)
+        first = second = None
+        for l in range(len(wb.j["locals"])):
+            defs = [d for d in wix.defs.get(l, []) if d[0] == "assign" and not d[3]["lhs"]["p"]]
+            if len(defs) != 2 or wb.j["locals"][l]["ty"] != "i32":
+                continue
+            kinds = set()
+            for d in defs:
+                rv = d[3]["rv"]
+                c = const_int(rv["a"]) if rv["k"] == "use" else None
+                if c is not None:
+                    kinds.add(("const", c))
+                elif rv["k"] == "use":
+                    kinds.add(("field", P.source_name(wix, rv["a"])))
+            if ("field", "compressed_length") in kinds:
+                first = kinds
+            if ("field", "decompressed_length") in kinds:
+                second = kinds
+        ctx.ob("MARKER", "writer-marker", first == {("field", "compressed_length"), ("const", 32000)}, f"writer: the first word is {sorted(map(str, first or []))}; raw blocks must carry 32000 there", wb.file, wb.line)
+        ctx.ob("MARKER", "second-word", second == {("field", "decompressed_length"), ("field", "file_size")}, f"writer: the second word is {sorted(map(str, second or []))}", wb.file, wb.line, trivial=True)
 
     # ---- DISPATCH
     rb = prog.body("sqpack::data::SqPackData::read_from_offset")
@@ -240,6 +307,21 @@ def run(ctx):
         adv2 = any("read_le" in (t.get("res") or (t["f"].get("k") or {}).get("fn") or "") and (t["f"].get("k") or {}).get("ga", [None])[-1] == "i16" for _bi, t in tb.calls())
         widths = [(t["f"].get("k") or {}).get("ga", [None])[-1] for _bi, t in tb.calls() if "read_le" in (t.get("res") or (t["f"].get("k") or {}).get("fn") or "")]
         adv = False
+        # the i16 size entry is consumed once per block read: no way around the loop body from the block read back to
+        # itself that avoids the size read
+        rd_bb = [bi for bi, t in tb.calls() if "sqpack::read_data_block" in (t.get("res") or "")]
+        sz_bb = [bi for bi, t in tb.calls() if "read_le" in (t.get("res") or (t["f"].get("k") or {}).get("fn") or "") and (t["f"].get("k") or {}).get("ga", [None])[-1] == "i16"]
+        every = False
+        if len(rd_bb) == 1 and len(sz_bb) == 1:
+            seen_, work_ = set(), [s_ for s_ in tb.succ(rd_bb[0]) if not tb.blocks[s_]["cleanup"]]
+            while work_:
+                x_ = work_.pop()
+                if x_ in seen_ or x_ == sz_bb[0] or tb.blocks[x_]["cleanup"]:
+                    continue
+                seen_.add(x_)
+                work_.extend(tb.succ(x_))
+            every = rd_bb[0] not in seen_ and tb.dominates(rd_bb[0], sz_bb[0])
+        ctx.ob("TEX", "size-table-every-block", every, "every block read is followed by exactly one read of its i16 size-table entry before the next block (the table is one cursor shared by all mips)", tb.file, tb.line)
         ctx.ob("TEX", "size-table", adv2 and widths == ["i16"], "the running block position advances by the i16 compressed-size table entries", tb.file, tb.line)
 
     # ---- MODEL member consistency
